@@ -35,6 +35,8 @@ mod parser;
 mod query;
 mod searcher;
 mod util;
+#[cfg(feature = "verif-hooks")]
+mod verif_hooks;
 
 use crate::config::Config;
 use crate::parser::Parser;
@@ -43,6 +45,11 @@ use crate::util::error_message;
 use crate::util::str_to_bool;
 
 fn main() -> ExitCode {
+    #[cfg(feature = "verif-hooks")]
+    if env::var_os("FSELECT_VERIF_BATCH").is_some() {
+        return verif_hooks::serve();
+    }
+
     let default_config = Config::default();
 
     let mut config = match Config::new() {
